@@ -58,7 +58,7 @@ CLAIMED = {
         text="Bounded symbolic verification: mk_score, mk_variance_s, mk_sens_slope, mann_kendall_trend_1d and both gufunc wrappers "
              "executed symbolically on int16 series with arbitrary ties (one query per length covers every rank pattern): S and "
              "tau vs the pairwise definition, tie-corrected variance vs the per-element tie-group formula, Sen slope vs the median "
-             "of pairwise slopes, continuity-corrected Z / p / flag composition, all-nodata pixel, outputs written. n <= 6/7.",
+             "of pairwise slopes, continuity-corrected Z / p / flag composition, all-nodata pixel, outputs written. parts n <= 6/7, composition n <= 4/6.",
         note="sqrt, erf, ndtri(0.975) uninterpreted and shared by kernel and definition; p<0.05 <=> |Z|>z_crit assumed; symmetry "
              "clauses are corollaries. Trusted: pysym (np.unique/nanmedian via order statistics), z3.",
         technique="symbolic execution + z3 LIA/NIA/UF, order-statistic encoding of unique/median", ref="5 C10"),
